@@ -19,12 +19,12 @@
 #define IS(var, lit) (memcmp((var), (lit), sizeof(lit)) == 0)
 #define POSTS(P) \
     P(derived_label,        IS(derivedLabel, "derived") && derivedLabelLen == 7) \
-    P(ext_binder_label,     IS(extBinderLabel, "ext binder")) \
-    P(res_binder_label,     IS(resBinderLabel, "res binder")) \
-    P(c_e_traffic_label,    IS(cEarlyTrafficLabel, "c e traffic")) \
+    P(ext_binder_label,     IS(extBinderLabel, "ext binder") && extBinderLabelLen == 10) \
+    P(res_binder_label,     IS(resBinderLabel, "res binder") && resBinderLabelLen == 10) \
+    P(c_e_traffic_label,    IS(cEarlyTrafficLabel, "c e traffic") && earlyTrafficLabelLen == 11) \
     P(c_hs_traffic_label,   IS(cHsTrafficLabel, "c hs traffic")) \
     P(s_hs_traffic_label,   IS(sHsTrafficLabel, "s hs traffic")) \
-    P(finished_label,       IS(finishedLabel, "finished")) \
+    P(finished_label,       IS(finishedLabel, "finished") && finishedLabelLen == 8) \
     P(c_ap_traffic_label,   IS(cApTrafficLabel, "c ap traffic")) \
     P(s_ap_traffic_label,   IS(sApTrafficLabel, "s ap traffic") && trafficLabelLen == 12) \
     P(res_master_label,     IS(resLabel, "res master") && resLabelLen == 10)
